@@ -1,10 +1,11 @@
 /-
 Driver op of the gostring family (C06).
 
-  op <id> gostring <T> <v>   → model=<canonical observation of evalG (goString env T v)>;skel=<skeleton of goString env T v>;eq=<b> spec=<b>
+  op <id> gostring <T> <v>   → model=<canonical observation of evalG (goString env T v)>;skel=<skeleton of goString env T v>;eq=<b>
 
 `eq` is the specification's verdict `Spec.structEq env T v v'` on the model's value (the Go side
-prints reflect.DeepEqual(original, evaluated) in the same place); `spec` repeats it as true/false.
+prints reflect.DeepEqual(original, evaluated) in the same place). No `spec=` is printed: the property is
+decided on the implementation's own answer (`oracle=` of compare_corpus).
 The lexical layer is `GoString.valLex` (leaf text = the value; reading back maps -0.0 to +0.0).
 Answers: `ill-typed`, `non-finite` (outside the property's quantifier), `unsupported` (the generator
 emits nothing for the type), `model=panic` (the text does not compile / panics).
@@ -126,11 +127,11 @@ def run (s : DState) (name : String) (args : List SExp) : Option String :=
       else
         let text := GoString.goString env GoString.valLex T v
         match GoString.evalG env GoString.valLex text (maxAddr v + 1) with
-        | .panic => "model=panic spec=false"
+        | .panic => "model=panic"
         | .ok (v', _) =>
           let e := Spec.structEq env T v v'
           let fresh := (addrs v').all fun a => a > maxAddr v
-          s!"model={canon v'};skel={skelE text};eq={b01 (e && fresh)} spec={e}"
+          s!"model={canon v'};skel={skelE text};eq={b01 (e && fresh)}"
     | _, _ => "bad-op"
   | _, _ => none
 
